@@ -128,7 +128,8 @@ def locate (d : AnalyzedSource) (s : Option Slice) (name : Identifier) : Except 
     | .error e => .error e
     | .ok r => .ok (some (asPosRange r d.text))
 
-/-- `features::lookup_ident`: the name token in the procedure's own header is the procedure. -/
+/-- `features::lookup_ident`: the name token in the procedure's own header is the procedure; a name
+    in a type position is global. -/
 def lookupIdent (d : AnalyzedSource) (pe : ProcedureEntry) (ident : Ident) : Except Panic (Option Entry) :=
   let own : Except Panic Bool := match (allTokens d).sub pe.range with
     | none => .ok false
@@ -137,10 +138,18 @@ def lookupIdent (d : AnalyzedSource) (pe : ProcedureEntry) (ident : Ident) : Exc
       match s.get? (pe.name.info.range.hi - 1) with
       | some t => .ok (t.range == ident.range)
       | none => .ok false
+  -- a name directly after `:` or `of` is in a type position: only global names are visible there
+  let prev := ((d.tokens.takeWhile (fun t => t.range.hi ≤ ident.range.lo)).filter
+    (fun t => t.kind != .Comment)).getLast?
+  let typePos : Bool := match prev with
+    | some t => t.kind == .Colon || t.kind == .Of
+    | none => false
   match own with
   | .error e => .error e
   | .ok true => .ok ((tblLookup d.table ident.value).map Entry.ofGlobal)
-  | .ok false => .ok (lookupBoth (some pe.localTable) d.table ident.value)
+  | .ok false =>
+    if typePos then .ok ((tblLookup d.table ident.value).map Entry.ofGlobal)
+    else .ok (lookupBoth (some pe.localTable) d.table ident.value)
 
 /-! ### goto.rs -/
 
@@ -660,7 +669,12 @@ def semanticTokens (d : AnalyzedSource) : Except Panic (List SemTok) :=
               if (match pd.name with | some n => n.info.range.hi == pos + 1 | none => false) then some (tyFunction, 1)
               else match t.ty with
                 | .Ident name =>
-                  match lookupBoth lt d.table name with
+                  -- directly after `:` or `of`: a type position, only global names are visible
+                  let prevTok := ((s.toList.take i).filter (fun t => t.kind != .Comment)).getLast?
+                  let typePos : Bool := match prevTok with
+                    | some t => t.kind == .Colon || t.kind == .Of
+                    | none => false
+                  match (if typePos then (tblLookup d.table name).map Entry.ofGlobal else lookupBoth lt d.table name) with
                   | some (.type _) => some (tyType, 0)
                   | some (.procedure _) => some (tyFunction, 0)
                   | some (.variable v) => some (tyVariable, if v.range.lo + v.name.info.range.hi == pos + 1 then 1 else 0)
